@@ -17,14 +17,15 @@ PROPERTY = "C15"
 LEVEL = "model_checking"
 RULE = ("all ordered sequences of <=k distinct assertions (single-valued assignment, container assignment, append/add) "
         "over the transitive universe (12 sub-organisation facts on 4 companies: every chain, diamond and cycle in "
-        "every insertion order) and over the mixed universe (works_for / member_of / members / head_of / sub); "
+        "every insertion order), over one transitive descriptor attached to two classes (regions / cities) "
+        "and over the mixed universe (works_for / member_of / members / head_of / sub); "
         "state = (set of graph relations, field contents); after every step the implementation is compared with the "
         "reference fix-point closure. non-trivial = sequences whose closure strictly contains the asserted facts")
 ASSUMPTIONS = ["histories whose closure gives a single-valued field two different values are outside the statement "
                "(no defined field value); they are removed by the generator using the reference closure and counted",
                "list-valued fields are compared as sets (a user may append what was inferred before)"]
-BOUNDS = {"quick": {"transitive_seq_len": 4, "mixed_seq_len": 3, "unit_seq_len": 3},
-          "thorough": {"transitive_seq_len": 5, "mixed_seq_len": 4, "unit_seq_len": 4}}
+BOUNDS = {"quick": {"transitive_seq_len": 4, "mixed_seq_len": 3, "unit_seq_len": 3, "geo_seq_len": 3},
+          "thorough": {"transitive_seq_len": 5, "mixed_seq_len": 4, "unit_seq_len": 4, "geo_seq_len": 4}}
 CHUNK = 150
 RECYCLE_CHUNKS = 10
 BUDGET_S = {"quick": 900, "thorough": 6000}
@@ -75,9 +76,24 @@ def worker_universe():
     return u
 
 
+NR = 3
+
+
+def geo_universe():
+    """one transitive descriptor class on two domain classes: regions within regions, a city located in regions"""
+    u = [("geo", "r%d" % i, j, "append", "within") for i in range(NR) for j in range(NR) if i != j]
+    u += [("geo", "m0", j, "append", "located_in") for j in range(NR)]
+    u += [("geo", "m1", 0, "append", "located_in"), ("geo", "m0", 1, "assign", "located_in"), ("geo", "r0", 1, "assign", "within")]
+    return u
+
+
 def cases(tier, seed):
     b = BOUNDS[tier]
     out = [("seq", ())]
+    gu = geo_universe()
+    for k in range(1, b["geo_seq_len"] + 1):
+        for s in itertools.permutations(gu, k):
+            out.append(("seq", s))
     wu = worker_universe()
     for k in range(1, 4):
         for s in itertools.permutations(wu, k):
@@ -116,7 +132,9 @@ class World:
         self.u = [O.VUnit(f"u{i}") for i in range(NU)]
         self.orgs = [O.VOrg("o0"), O.VOrg("o1")]
         self.workers = {"w0": O.VWorker("w0"), "k0": O.VContractor("k0"), "k1": O.VContractor("k1")}
-        self.objs = self.c + self.p + [self.ceo] + self.u + self.orgs + list(self.workers.values())
+        self.geo = {"r%d" % i: O.VRegion("r%d" % i) for i in range(NR)}
+        self.geo.update(m0=O.VCity("m0"), m1=O.VCity("m1"))
+        self.objs = self.c + self.p + [self.ceo] + self.u + self.orgs + list(self.workers.values()) + list(self.geo.values())
         self.name = {id(o): repr(o) for o in self.objs}
 
     def person(self, p):
@@ -127,6 +145,8 @@ class World:
         kind = a[0]
         if kind == "unit":
             return (self.u[a[1]], a[4], self.u[a[2]])
+        if kind == "geo":
+            return (self.geo[a[1]], a[4], self.geo["r%d" % a[2]])
         if kind == "worker":
             return (self.workers[a[1]], a[4], self.orgs[a[2]])
         if kind == "sub":
@@ -256,7 +276,7 @@ def run_case(case):
     if len(exp) > len(asserted):
         res.nontrivial_key = seq
     res.outcome_key = states[-1]
-    kinds = {a[0] + ":" + a[3] + (":" + a[4] if a[0] in ("unit", "worker") else "") for a in seq}
+    kinds = {a[0] + ":" + a[3] + (":" + a[4] if a[0] in ("unit", "worker", "geo") else "") for a in seq}
     res.features = list(kinds) + ["len:%d" % len(seq)]
     if any(s == t for s, f, t in exp):
         res.features.append("closure-has-self-loop(cycle)")
@@ -268,7 +288,7 @@ def run_case(case):
 
 def finish(run):
     if run.exhaustive and not run.failures:
-        for k in ("closure-has-self-loop(cycle)", "head:assign", "works:assign", "members:add", "memberof:append"):
+        for k in ("closure-has-self-loop(cycle)", "geo:append:located_in", "geo:append:within", "head:assign", "works:assign", "members:add", "memberof:append"):
             if not run.features.get(k):
                 raise HarnessError(f"vacuous: {k} never exercised")
 
@@ -318,7 +338,16 @@ def _m_inferring_flag():
     R.PropertyDescriptorRelation.add_to_graph = patched
 
 
-MUTANTS = {"transitive_outgoing_only": _m_transitive_outgoing_only, "no_inverse_for_inferred": _m_no_inverse_for_inferred,
+def _m_transitive_outgoing_uses_next_field():
+    # before the C15-F1 fix: the relation inferred from the source carries the field of the next relation
+    from krrood.ontomatic.property_descriptor import property_descriptor_relation as R
+    def outgoing(self):
+        for nxt in self.target_outgoing_relations_with_same_descriptor_type:
+            self.__class__(self.source, nxt.target, nxt.wrapped_field, inferred=True).add_to_graph()
+    R.PropertyDescriptorRelation.infer_transitive_relations_outgoing_from_source = outgoing
+
+
+MUTANTS = {"transitive_outgoing_uses_next_field": _m_transitive_outgoing_uses_next_field, "transitive_outgoing_only": _m_transitive_outgoing_only, "no_inverse_for_inferred": _m_no_inverse_for_inferred,
            "inferring_flag": _m_inferring_flag}
 
 
